@@ -30,9 +30,9 @@ def writer_program(fmt, vecs, outdir):
 def reader_program(fmt, vecs, outdir, dump=False):
     # pad: records the writing process never had, created first, so that a format that stores record-table indices
     # instead of record contents cannot round-trip by coincidence of the two processes' tables
-    lines = [io.TYPE_DECLS, ".decl pad(a:R, b:RR, c:RA)", 'pad(["pad1", 1], [["pad2", 2], 3], [$S("pad3"), 4]).',
-             'pad(["pad4", 5], [nil, 6], [$N(), 7]).', ".decl res(k:number, missing:number, unexpected:number)",
-             "res(-1, 0, c) :- c = count : { pad(_, _, _) }."]
+    lines = [io.TYPE_DECLS, ".decl aaa_pad(a:R, b:RR, c:RA)", 'aaa_pad(["pad1", 1], [["pad2", 2], 3], [$S("pad3"), 4]).',
+             'aaa_pad(["pad4", 5], [nil, 6], [$N(), 7]).', ".decl res(k:number, missing:number, unexpected:number)",
+             "res(-1, 0, c) :- c = count : { aaa_pad(_, _, _) }."]
     for v in vecs:
         n = "w%d" % v["id"]; e = "e%d" % v["id"]
         vs = ", ".join("xyzuvw"[i] for i in range(len(v["types"])))
